@@ -1135,15 +1135,20 @@ func checkObs(s spec, o *hsObs, serverKey crypto.PrivateKey) *obsResult {
 	}
 
 	// --- session ticket (RFC 5077 NewSessionTicket, TLS <= 1.2)
-	if st := o.Log.SessionTicket; st != nil && (st.Length != 0 || len(st.Value) != 0 || st.LifetimeHint != 0) {
+	// When the wire carried a NewSessionTicket the log's ticket object is about that message, whatever its
+	// content (a zero-length ticket with hint 0 is then a populated, all-zero object).
+	var nst *nstWire
+	if !tls13 {
+		if ms := w.find(netx.BtoA, hsNewSessionTicket); len(ms) > 0 {
+			nst, _ = parseNST(ms[len(ms)-1].Body)
+		}
+	}
+	if o.Log.SessionTicket == nil && nst != nil && o.CErr == nil {
+		k.count("unpopulated:session_ticket")
+	}
+	if st := o.Log.SessionTicket; st != nil && (nst != nil || st.Length != 0 || len(st.Value) != 0 || st.LifetimeHint != 0) {
 		res.Sections = append(res.Sections, "session_ticket")
 		k.cmpf("session_ticket")
-		var nst *nstWire
-		if !tls13 {
-			if ms := w.find(netx.BtoA, hsNewSessionTicket); len(ms) > 0 {
-				nst, _ = parseNST(ms[len(ms)-1].Body)
-			}
-		}
 		if st.Length != len(st.Value) {
 			k.fail("mismatch:session_ticket.length", "length field %d, value has %d bytes", st.Length, len(st.Value))
 		}
@@ -1156,6 +1161,9 @@ func checkObs(s spec, o *hsObs, serverKey crypto.PrivateKey) *obsResult {
 				k.fail("mismatch:session_ticket.lifetime_hint", "log %d wire %d", st.LifetimeHint, nst.Lifetime)
 			}
 			k.count("session_ticket_equals_wire_newsessionticket")
+			if len(nst.Ticket) == 0 {
+				k.count("session_ticket_zero_length_on_wire")
+			}
 		case len(chs) > 0 && chs[len(chs)-1].HasTicket && bytes.Equal(st.Value, chs[len(chs)-1].Ticket) && len(st.Value) > 0:
 			// no new ticket in this connection: the log shows the ticket the session was resumed from, which
 			// was on the wire in the ClientHello
@@ -1194,7 +1202,7 @@ func checkObs(s spec, o *hsObs, serverKey crypto.PrivateKey) *obsResult {
 	res.Sig = fmt.Sprintf("%s|%04x|%04x|g%d|sig=%s|%s|%s|ok=%v|hrr=%v|tkt=%v|nst=%v|creq=%v|alpn=%v|scts=%v|ocsp=%v|ems=%v|shrw=%d|leaf=%s|resumed=%v|sections=%s",
 		s.Cell.Peer, negVers, suite, curve, sigScheme, s.Cell.Kind, s.Mode, handshakeOK, len(shs) > 1, chTicket, nstSeen, certReq,
 		finalSH != nil && (finalSH.ALPN != "" || eeALPN != ""), finalSH != nil && len(finalSH.SCTs) > 0, finalSH != nil && finalSH.StatusRequest,
-		finalSH != nil && finalSH.EMS, s.SHRewrite, s.LeafSet, o.DidResume, strings.Join(res.Sections, ","))
+		finalSH != nil && finalSH.EMS, s.SHRewrite, s.LeafSet, o.DidResume, strings.Join(res.Sections, ",")) + "|" + s.Script
 	res.Summary["negotiated_version"] = fmt.Sprintf("%04x", negVers)
 	res.Summary["suite"] = fmt.Sprintf("%04x", suite)
 	res.Summary["sig_scheme"] = sigScheme
